@@ -10,6 +10,7 @@ import (
 func init() {
 	f := "internal/wat/watutil/wat2c/wat2c_func.go"
 	register(&Property{ID: "C03", Run: runC03, Mutants: []Mutant{
+		{Name: "br copies results only when they are above the current block's base", File: "internal/wat/watutil/wat2c/wat2c_func.go", Old: "\t\t\tif firstResultOffset > destScopeStackBase {", New: "\t\t\tif firstResultOffset > currentScopeStackBase {", Expect: "br-result-copy-guard"},
 		{Name: "data literal: 'F' after a hex escape not split off", File: "internal/wat/watutil/wat2c/wat2c_code.go", Old: "if prevIsHexEscape && x <= 'F' {", New: "if prevIsHexEscape && x < 'F' {", Expect: "c-data-literal"},
 		{Name: "data literal: double quote written raw", File: "internal/wat/watutil/wat2c/wat2c_code.go", Old: "\t\t\t\tsb.WriteString(\"\\\\\\\"\")", New: "\t\t\t\tsb.WriteString(\"\\\"\")", Expect: "c-data-literal"},
 		{Name: "i32.lt_u compares signed", File: f, Old: "R%d.i32 = ((uint32_t)(R%d.i32)<(uint32_t)(R%d.i32))? 1: 0;", New: "R%d.i32 = (R%d.i32<R%d.i32)? 1: 0;", Expect: "c-signedness :: i32.lt_u"},
@@ -93,6 +94,7 @@ func runC03(c *Ctx) {
 		return
 	}
 	c03DataLiteral(c, p, pk)
+	c03BrResultCopy(c, p, pk)
 	by := stackEffectRules(c, p, "wat2c", pk, ins)
 	if by == nil {
 		return
